@@ -476,6 +476,22 @@ func runC18(c *Ctx) {
 	if len(chars) < 8 {
 		c.undecided("C18-R3: only %d punctuation characters shared by both lexers", len(chars))
 	}
+	// expansion rewrites a symbol only where it starts a line; wherever else the compact lexer accepts the character
+	// (`%` as modulo, `@minLen(2)` on a field, `if c { $ y = 1 }` on one line) it stays in the expanded text, so the
+	// expanded lexer needs a token for every character the compact lexer has one for
+	{
+		var only []string
+		for ch := range csym {
+			if _, ok := xsym[ch]; !ok {
+				only = append(only, ch)
+			}
+		}
+		sort.Strings(only)
+		for _, ch := range only {
+			c.ob("C18-R3", parserPkg+"#char:"+strconv.Quote(ch)+":has-a-token-in-the-expanded-lexer", token.NoPos, false, "the compact lexer turns "+strconv.Quote(ch)+" into {"+setStr(csym[ch])+"} but the expanded lexer has no arm for it: expansion leaves the character wherever it does not start a line, and the expanded file fails with `invalid character`")
+		}
+		c.ob("C18-R3", parserPkg+"#every-compact-punctuation-has-an-expanded-token", token.NoPos, true, "")
+	}
 	valueSet := func(recv string) map[string]bool {
 		out := map[string]bool{}
 		for _, fn := range c.srcFuncs(parserPkg) {
